@@ -130,6 +130,11 @@ func (s *Rtmp2MpegtsRemuxer) FeedRtmpMessage(msg base.RtmpMsg) {
 }
 
 func (s *Rtmp2MpegtsRemuxer) Dispose() {
+	// an input that leaves while its first messages are still held back for probing (fewer than
+	// calcFragmentHeaderQueueSize messages and only one of audio / video seen so far) has produced no output
+	// yet: hand out what it has sent, with PAT/PMT for the track that is known
+	s.filter.Flush()
+
 	s.FlushAudio()
 }
 
